@@ -592,6 +592,128 @@ fn part_b(ctx: &Ctx, tier: Tier, samples: &Samples) -> (u64, u64, u64) {
 }
 
 // ---------------------------------------------------------------------------------------------
+// (e) two *different* trapped signals caught in one batch (raised at the same system call, in
+// either order) or at consecutive calls, at every system call: each action runs exactly once; and
+// when one action aborts the shell (`exit`, an expansion error) nothing runs after it, whatever
+// the other action does.
+
+struct Pair {
+    text: &'static str,
+    /// alternative sequences of the markers outside the two actions (interrupted `wait`s)
+    alt: &'static [&'static [&'static str]],
+    /// the USR1 action ends the shell with this status (then nothing may run after `T`)
+    aborts: Option<i32>,
+}
+
+const PAIRS: &[Pair] = &[
+    Pair { text: "trap 'p T' USR1; trap 'p U' USR2\np a\np b 3\n(s 0)\np c\np d", alt: &[], aborts: None },
+    Pair { text: "trap 'p T' USR1; trap 'p U' USR2\np a\ny=$(p s1; p s2 3)\np b\np p1 | p p2 2\np c", alt: &[], aborts: None },
+    Pair {
+        text: "trap 'p T' USR1; trap 'p U' USR2\np a\n{ s 0; s 3; } &\nwait $!\np w\nwait $!\np e",
+        alt: &[&["a:0", "w:508", "e:3"], &["a:0", "w:509", "e:3"], &["a:0", "w:508", "e:509"], &["a:0", "w:509", "e:508"], &["a:0", "w:3", "e:508"], &["a:0", "w:3", "e:509"]],
+        aborts: None,
+    },
+    Pair {
+        text: "trap 'p T' USR1; trap 'p U' USR2\np a\nhang &\nwait $!\np w\nkill -s KILL $!; wait $!\np e",
+        alt: &[&["a:0", "w:508", "e:393"], &["a:0", "w:509", "e:393"]],
+        aborts: None,
+    },
+    Pair { text: "trap 'p T; exit 7' USR1; trap 'p U' USR2; trap 'p X' EXIT\np a\np b 3\n(s 0)\np c", alt: &[], aborts: Some(7) },
+    Pair { text: "trap 'p T; : ${nosuch?}' USR1; trap 'p U' USR2; trap 'p X' EXIT\np a\np b 3\n(s 0)\np c", alt: &[], aborts: Some(2) },
+    Pair {
+        text: "trap 'p T; exit 7' USR1; trap 'p U' USR2; trap 'p X' EXIT\np a\nhang &\nwait $!\np w\nkill -s KILL $!; wait $!\np e",
+        alt: &[],
+        aborts: Some(7),
+    },
+    Pair {
+        text: "trap 'p T; : ${nosuch?}' USR1; trap 'p U' USR2; trap 'p X' EXIT\np a\n{ s 0; s 3; } &\nwait $!\np w\nwait $!\np e",
+        alt: &[],
+        aborts: Some(2),
+    },
+];
+
+fn part_e(ctx: &Ctx) -> (u64, u64) {
+    let execs = AtomicU64::new(0);
+    let both = AtomicU64::new(0);
+    let (usr1, usr2) = (signo("USR1"), signo("USR2"));
+    PAIRS.par_iter().for_each(|pr| {
+        let setup = Setup::script(pr.text);
+        let hangs = pr.text.contains("hang &");
+        // the undisturbed run (a script that waits for a job that never ends has none: it is only
+        // run with signals arriving while `wait` blocks)
+        let base = run_once(&setup, &RunOpts { inject: Some(Inject { at: vec![], pid: 2 }), ..Default::default() });
+        let base_tr: Vec<String> = base_trace(&base).into_iter().filter(|t| !t.starts_with("X:")).collect();
+        let ntaps = base.target_taps;
+        let k0 = base.trace.iter().find(|e| e.pid == 2).map_or(0, |e| e.at_tap);
+        let last_cmd_tap = base.trace.iter().filter(|e| e.pid == 2 && !e.text.starts_with("X:")).last().map_or(0, |e| e.at_tap);
+        let (from, to) = if hangs { (ntaps.saturating_sub(1), ntaps + 1) } else { (k0, ntaps + 2) };
+        for k in from..to {
+            for inj in [vec![(k, usr1), (k, usr2)], vec![(k, usr2), (k, usr1)], vec![(k, usr1), (k + 1, usr2)], vec![(k, usr2), (k + 1, usr1)]] {
+                let r = run_once(&setup, &RunOpts { inject: Some(Inject { at: inj.clone(), pid: 2 }), ..Default::default() });
+                execs.fetch_add(1, Relaxed);
+                let describe = || json!({"part": "b", "script": pr.text, "signal": "USR1", "inject_pairs": inj.iter().map(|(k, s)| json!([k, s])).collect::<Vec<_>>(), "inject_at_syscall": inj.iter().map(|(k, _)| *k).collect::<Vec<_>>()});
+                if let Some(p) = &r.panic {
+                    ctx.violation("c11:panic", &format!("panic: {p}"), describe());
+                    continue;
+                }
+                let delivered = inj.iter().filter(|(k, _)| *k < r.target_taps).count();
+                if delivered < 2 {
+                    continue;
+                }
+                let tr = base_trace(&r);
+                let nt = tr.iter().filter(|t| t.starts_with("T:")).count();
+                let nu = tr.iter().filter(|t| t.starts_with("U:")).count();
+                let nx = tr.iter().filter(|t| t.starts_with("X:")).count();
+                let rest: Vec<String> = tr.iter().filter(|t| !t.starts_with("T:") && !t.starts_with("U:") && !t.starts_with("X:")).cloned().collect();
+                if matches!(r.end, End::Deadlock | End::Livelock | End::Signaled(_)) {
+                    // a script whose job never ends legitimately blocks for ever when both signals came
+                    // before `wait` started
+                    if !(hangs && matches!(r.end, End::Deadlock) && nt == 1 && nu == 1) {
+                        ctx.violation("c11:two-signals-end", &format!("{:?}; trace {tr:?}", r.end), describe());
+                    }
+                    continue;
+                }
+                both.fetch_add(1, Relaxed);
+                let tail = inj.iter().any(|(k, _)| *k >= last_cmd_tap);
+                if let Some(status) = pr.aborts {
+                    // (a signal that arrives when no command of the script is left finds its command
+                    // boundary inside the EXIT trap, which the aborting action then cuts short: legitimate)
+                    if tail {
+                        continue;
+                    }
+                    // after `T` no command of the script runs, the EXIT trap runs once, the exit status is
+                    // the abort's. (The other action may run before `T`, or — still pending when the shell
+                    // begins to exit — at the first command boundary of the EXIT trap.)
+                    let after_t: Vec<&String> = tr.iter().skip_while(|t| !t.starts_with("T:")).skip(1).filter(|t| !t.starts_with("X:") && !t.starts_with("U:")).collect();
+                    if nt != 1 || !after_t.is_empty() || nx != 1 || r.end != End::Exited(status) {
+                        ctx.violation(
+                            "c11:abort-in-trap-batch",
+                            &format!("the USR1 action ends the shell with status {status}, yet: T ran {nt}x, after it {after_t:?}, EXIT trap {nx}x, end {:?}; trace {tr:?}", r.end),
+                            describe(),
+                        );
+                    }
+                    continue;
+                }
+                let rest_ok = (!hangs && rest == base_tr) || pr.alt.iter().any(|a| rest.iter().map(|s| s.as_str()).eq(a.iter().copied()));
+                if !rest_ok {
+                    ctx.violation("c11:status-clobbered", &format!("markers outside the trap actions: {rest:?}, undisturbed {base_tr:?} (full {tr:?})"), describe());
+                    continue;
+                }
+                let ok = if tail { nt <= 1 && nu <= 1 } else { nt == 1 && nu == 1 };
+                if !ok {
+                    ctx.violation(
+                        if nt == 0 || nu == 0 { "c11:trap-lost-in-batch" } else { "c11:trap-duplicated" },
+                        &format!("USR1 and USR2 were both delivered (system calls {:?}) but their actions ran {nt} and {nu} times; trace {tr:?}", inj.iter().map(|(k, _)| *k).collect::<Vec<_>>()),
+                        describe(),
+                    );
+                }
+            }
+        }
+    });
+    (execs.load(Relaxed), both.load(Relaxed))
+}
+
+// ---------------------------------------------------------------------------------------------
 // (c) interactive shell: a trapped signal delivered in the same batch as the SIGINT that
 // interrupts a blocked built-in (or any other command) still runs its action exactly once.
 
@@ -741,7 +863,10 @@ pub fn replay(case: &serde_json::Value) -> i32 {
     if case["part"] == "b" {
         let script = case["script"].as_str().unwrap();
         let sig = signo(case["signal"].as_str().unwrap());
-        let at: Vec<(usize, i32)> = case["inject_at_syscall"].as_array().unwrap().iter().map(|k| (k.as_u64().unwrap() as usize, sig)).collect();
+        let at: Vec<(usize, i32)> = match case["inject_pairs"].as_array() {
+            Some(pairs) => pairs.iter().map(|p| (p[0].as_u64().unwrap() as usize, p[1].as_i64().unwrap() as i32)).collect(),
+            None => case["inject_at_syscall"].as_array().unwrap().iter().map(|k| (k.as_u64().unwrap() as usize, sig)).collect(),
+        };
         let r = vsh::run_once(&Setup::script(script), &RunOpts { inject: Some(Inject { at, pid: 2 }), log_taps: true, ..Default::default() });
         println!("script:\n{script}\nend={:?}\ntrace={:?}\nstderr={}", r.end, base_trace(&r), r.stderr);
         return 1;
@@ -757,14 +882,17 @@ pub fn run(tier: Tier) -> i32 {
     let (execs, points, coalesced) = part_b(&ctx, tier, &samples);
     let (c_execs, c_judged) = part_c(&ctx);
     let (d_runs, d_steps) = super::c11d::part_d(&ctx, &samples);
+    let (e_execs, e_both) = part_e(&ctx);
     let cov = json!({
+        "part_e_two_signal_executions": e_execs,
+        "part_e_executions_with_both_signals_delivered": e_both,
         "part_d_set_trap_histories": d_runs,
         "part_d_commands_compared": d_steps,
         "part_c_interactive_executions": c_execs,
         "part_c_interactive_executions_judged": c_judged,
         "states": states,
         "transitions": transitions,
-        "traces_validated_against_impl": transitions + execs + c_execs + d_runs,
+        "traces_validated_against_impl": transitions + execs + c_execs + d_runs + e_execs,
         "samples": samples.take(),
         "part_a_closure_reached_in_every_configuration": closed,
         "part_b_executions": execs,
